@@ -55,7 +55,9 @@ func init() {
 					w.violate("C12", "output-id-ignores-"+name, fmt.Sprintf("v1 siacoin output ID unchanged after changing %s", name))
 				}
 			}
-			row("output-value", true, func(t *types.Transaction) { t.SiacoinOutputs[0].Value = t.SiacoinOutputs[0].Value.Add(types.NewCurrency64(1)) })
+			row("output-value", true, func(t *types.Transaction) {
+				t.SiacoinOutputs[0].Value = t.SiacoinOutputs[0].Value.Add(types.NewCurrency64(1))
+			})
 			row("output-address", true, func(t *types.Transaction) { t.SiacoinOutputs[0].Address[31] ^= 1 })
 			row("input-parent", true, func(t *types.Transaction) { t.SiacoinInputs[0].ParentID[0] ^= 1 })
 			row("input-timelock", true, func(t *types.Transaction) { t.SiacoinInputs[0].UnlockConditions.Timelock++ })
@@ -153,7 +155,10 @@ func init() {
 				}
 			}
 			one := types.NewCurrency64(1)
-			row("output-value", true, func(t *types.V2Transaction) bool { t.SiacoinOutputs[0].Value = t.SiacoinOutputs[0].Value.Add(one); return true })
+			row("output-value", true, func(t *types.V2Transaction) bool {
+				t.SiacoinOutputs[0].Value = t.SiacoinOutputs[0].Value.Add(one)
+				return true
+			})
 			row("output-address", true, func(t *types.V2Transaction) bool { t.SiacoinOutputs[0].Address[3] ^= 1; return true })
 			row("input-parent-id", true, func(t *types.V2Transaction) bool { t.SiacoinInputs[0].Parent.ID[9] ^= 1; return true })
 			row("miner-fee", true, func(t *types.V2Transaction) bool { t.MinerFee = t.MinerFee.Add(one); return true })
@@ -208,7 +213,10 @@ func init() {
 				t.SiacoinInputs[0].Parent.SiacoinOutput.Value = t.SiacoinInputs[0].Parent.SiacoinOutput.Value.Add(one)
 				return true
 			})
-			row("parent-address", false, func(t *types.V2Transaction) bool { t.SiacoinInputs[0].Parent.SiacoinOutput.Address[0] ^= 1; return true })
+			row("parent-address", false, func(t *types.V2Transaction) bool {
+				t.SiacoinInputs[0].Parent.SiacoinOutput.Address[0] ^= 1
+				return true
+			})
 			row("parent-maturity", false, func(t *types.V2Transaction) bool { t.SiacoinInputs[0].Parent.MaturityHeight++; return true })
 			row("parent-leaf-index", false, func(t *types.V2Transaction) bool { t.SiacoinInputs[0].Parent.StateElement.LeafIndex++; return true })
 			row("parent-proof", false, func(t *types.V2Transaction) bool {
@@ -255,8 +263,10 @@ func init() {
 			add(types.Hash256(base.SiafundOutputID(id, 0).V2ClaimOutputID()), "claim output")
 			// purposes: the four v2 signature hashes of "the same" content differ
 			hs := map[types.Hash256]string{}
-			for what, h := range map[string]types.Hash256{"input": sigHash, "contract": sc.s.ContractSigHash(fc), "attestation": sc.s.AttestationSigHash(att),
-				"renewal": sc.s.RenewalSigHash(types.V2FileContractRenewal{NewContract: fc})} {
+			purposes := map[string]types.Hash256{"input": sigHash, "contract": sc.s.ContractSigHash(fc), "attestation": sc.s.AttestationSigHash(att),
+				"renewal": sc.s.RenewalSigHash(types.V2FileContractRenewal{NewContract: fc})}
+			for _, what := range sortedKeys(purposes) {
+				h := purposes[what]
 				if prev, dup := hs[h]; dup {
 					w.violate("C12", "sighash-purposes-coincide", fmt.Sprintf("signature hashes for %s and %s coincide", prev, what))
 				}
@@ -356,7 +366,10 @@ func init() {
 				}
 			}
 			row("miner-address", func(b *types.Block) bool { b.MinerPayouts[0].Address[0] ^= 1; return true })
-			row("miner-value", func(b *types.Block) bool { b.MinerPayouts[0].Value = b.MinerPayouts[0].Value.Add(types.NewCurrency64(1)); return true })
+			row("miner-value", func(b *types.Block) bool {
+				b.MinerPayouts[0].Value = b.MinerPayouts[0].Value.Add(types.NewCurrency64(1))
+				return true
+			})
 			row("txn-output-address", func(b *types.Block) bool {
 				if len(b.Transactions) > 0 {
 					b.Transactions[0].SiacoinOutputs[0].Address[0] ^= 1
